@@ -278,7 +278,7 @@ Qed.
 (* ---------------- single-thread worker: liveness ---------------- *)
 
 (* every task linked into the queue is eventually run to the end, or dropped by iwstw_shutdown(false) / iwstw_schedule_only.
-   Hypotheses besides fairness: current code (recheck; self-thread guard releases the mutex), and task bodies are opaque (they
+   Assumptions besides fairness: current code (recheck; self-thread guard releases the mutex), and task bodies are opaque (they
    do not keep calling iwstw_shutdown on their own executor) *)
 Theorem C20_stw_linked_eventually_settled : forall c (x : Stw_live.sexec),
   Stw_live.is_sexec c x -> Stw_live.sfair c x -> Stw_proofs.R c (st_at Stw.st x 0) -> Stw.selfunlock c = true ->
